@@ -261,9 +261,10 @@ void pv_world_begin(const char* api) {
     w->call_id++;
     if (pv_cur.api == NULL && strcmp(api, "polyseed_decode") && strcmp(api, "polyseed_decode_explicit") && strcmp(api, "polyseed_load") && strcmp(api, "polyseed_crypt")) pv_cur.in_ptr = NULL;
     pv_cur.api = api;
+    __atomic_store_n(&pv_last_api, api, __ATOMIC_RELAXED);
     pv_in_lib = 1;
 }
-void pv_world_end(void) { pv_in_lib = 0; pv_cur.api = NULL; }
+void pv_world_end(void) { pv_in_lib = 0; pv_cur.api = NULL; __atomic_store_n(&pv_last_api, (const char*)NULL, __ATOMIC_RELAXED); }
 int pv_ev_count(int kind) { return (int)pv_w->count[kind]; }
 const pv_event* pv_ev_find(int kind, int nth) {
     for (int i = 0; i < pv_w->nev; ++i) if (pv_w->ev[i].kind == kind && nth-- == 0) return &pv_w->ev[i];
